@@ -1011,7 +1011,27 @@ def np_any(ex, args, kw, st):
     v = args[0]
     if isinstance(v, (SArr, SSeq)):
         return agg_any(ex, v, st)
+    if isinstance(v, SBag):
+        return agg_any(ex, SArr(v.shape, lambda p, v=v: z3.And(to_bool(v.pred(p)), to_bool(v.val(p))),
+                                'bool'), st)
     return to_bool(v)
+
+
+def np_nonzero(ex, args, kw, st):
+    """np.nonzero(mask) of a 2-D boolean array: the row and column coordinates of its True
+    pixels, as two selections over the same elements (order not modelled)."""
+    from .symexec import mask_key
+    m = args[0]
+    if not (isinstance(m, SArr) and m.kind == 'bool' and m.ndim == 2):
+        raise Unsupported('np.nonzero of this value')
+    mf = snap(m)
+    out = []
+    for ax in range(2):
+        b = SBag(m.shape, mf, (lambda p, ax=ax: num_term(p[ax])), 'int')
+        b.mask_id = mask_key(m)
+        b.coord = ax
+        out.append(b)
+    return tuple(out)
 
 
 def np_all(ex, args, kw, st):
@@ -1374,7 +1394,7 @@ TABLE = {
     'np.ones_like': np_zeros(1, True), 'np.full': np_full, 'np.where': np_where,
     'np.asarray': np_asarray, 'np.asanyarray': np_asarray, 'np.copy': np_copy,
     'np.array': np_array, 'np.atleast_1d': np_atleast_1d, 'np.transpose': np_transpose,
-    'np.count_nonzero': np_count_nonzero, 'np.sum': np_sum, 'np.nansum': np_sum, 'np.any': np_any, 'np.all': np_all,
+    'np.count_nonzero': np_count_nonzero, 'np.sum': np_sum, 'np.nansum': np_sum, 'np.any': np_any, 'np.nonzero': np_nonzero, 'np.all': np_all,
     'np.diff': np_diff, 'np.argmax': np_argmax_first_true,
     'PchipInterpolator': p_interp('PchipInterpolator'), 'np.ndim': np_ndim,
     'forall_real': cl_forall_real, 'np.prod': np_prod, 'np.unique': np_unique, 'np.argsort': np_argsort, 'np.arange': np_arange, 'np.broadcast_to': np_broadcast_to, 'np.atleast_2d': np_atleast_2d, 'np.clip': np_clip, 'spline': cl_uf('spline'),
